@@ -8,7 +8,8 @@ from lib import coq_list as L, coq_nat as N
 THEOREMS = ['C02_driver_sound', 'C02_certified_table_sound', 'C02_lr0_suffix', 'C02_error_keeps_prefix',
             'C02_shift_preferred', 'C02_reduce_only_without_shift', 'C02_rr_resolution', 'C02_conflict_iff',
             'C02_la_closure', 'C02_model_table_wf', 'C02_model_table_sound', 'C02_la_complete_child', 'C02_la_complete_reduce', 'C02_complete', 'C02_automaton_complete',
-            'C02_lr1_subset_la', 'C02_lr1_exec_subset_la', 'C02_example']
+            'C02_lr1_subset_la', 'C02_lr1_exec_subset_la',
+            'C02_read_witness', 'C02_follow_witness', 'C02_la_subset_lr1', 'C02_la_is_lalr1', 'C02_example']
 GEN_DEPS = []
 RULE = ('random CFGs (<=5 non-terminals, <=4 terminals, <=3 alternatives of length <=3; nullable alternatives, '
         'left/right recursion, shared LR(0) cores, rule priorities, shift/reduce and reduce/reduce conflicts, 1-2 start '
@@ -25,9 +26,9 @@ TRUSTED_BASE = ['run-time wrappers that read LALR_Analyzer internals (lr0_itemse
                 'checked on every grammar of the streams and on random (X,R,G) incl. cyclic R',
                 'search oracles in Python (not proofs): Earley-style recogniser, canonical-LR(1)-merge look-aheads']
 ASSUMPTIONS = ['token strings are finite lists of terminal numbers; the lexer is C07',
-               'canonical LR(1) look-aheads are model look-aheads: theorem (C02_lr1_subset_la, also for the executable construction); the converse '
-               '(needs productive rule bodies) is checked inside Coq by vm_compute against LR/Lr1Merge.v on every reduced grammar of the '
-               'streams, no longer by the Python oracle alone; completeness for conflict-free tables is a theorem (C02_complete)']
+               'model look-aheads = canonical LR(1) look-aheads merged by LR(0) state: theorem C02_la_is_lalr1 for grammars with productive '
+               'rule bodies (false without); additionally evaluated inside Coq by vm_compute against the executable LR/Lr1Merge.v on every '
+               'reduced grammar of the streams; completeness for conflict-free tables is a theorem (C02_complete)']
 
 IMPORTS = 'From LV Require Import Cfg.Grammar LR.Driver LR.Automaton LR.AutomatonCheck LR.DriverCheck LR.Lr1Merge.'
 
